@@ -178,7 +178,7 @@ def rank_pairs(rec, N, k, d):
 
 def coqchk_mx(chk):
     """thorough tier: the independent checker on the mathcomp property file as well"""
-    rc, out = lib.sh(["timeout", "2400", "coqchk", "-silent", "-o", "-Q", lib.COQ, "CE", "CE.Properties.C12Mx"], timeout=2500)
+    rc, out = lib.sh(["timeout", str(lib.COQCHK_TIMEOUT), "coqchk", "-silent", "-o", "-Q", lib.COQ, "CE", "CE.Properties.C12Mx"], timeout=lib.COQCHK_TIMEOUT + 100)
     axioms, sect = [], None
     for line in out.splitlines():
         m = re.match(r"^\* (.*?):\s*(.*)$", line.strip())
